@@ -479,3 +479,103 @@ class TermGen:
     def term(self):
         t = ["int", "[]int", "[]int", "[]string", "[][]int", "string", "bool", "[][]string"][self.r.below(8)]
         return t, self.gen(t, 0, [])
+
+
+# ----------------------------------------------------------------------------- C07: every type-expression shape in every XGo type position
+
+GENERIC_GO = '''package main
+
+type Named struct {
+	N int
+}
+
+type Str string
+
+type Box[T any] struct {
+	V T
+}
+
+type Pair[K comparable, V any] struct {
+	Key K
+	Val V
+}
+
+type Triple[A, B, C any] struct {
+	A A
+	B B
+	C C
+}
+
+type Iface interface {
+	M() int
+}
+
+func (n Named) M() int {
+	return n.N
+}
+
+func MakeBox[T any](v T) Box[T] {
+	return Box[T]{V: v}
+}
+'''
+
+# (name, type expression, may be embedded)
+TYPE_SHAPES_C07 = [
+    ("named", "Named", True), ("ptr-named", "*Named", True), ("qualified", "strings.Builder", True),
+    ("ptr-qualified", "*strings.Builder", True), ("iface", "Iface", True), ("qualified-iface", "fmt.Stringer", True),
+    ("inst1", "Box[int]", True), ("inst2", "Pair[string, int]", True), ("inst3", "Triple[int, string, bool]", True),
+    ("ptr-inst1", "*Box[int]", True), ("ptr-inst2", "*Pair[string, int]", True),
+    ("nested-inst", "Box[Pair[string, int]]", True), ("inst-of-named", "Pair[Named, *Named]", True),
+    ("inst-qualified-arg", "Pair[string, strings.Builder]", True),
+    ("array", "[2]Named", False), ("slice", "[]Named", False), ("slice-inst", "[]Box[int]", False),
+    ("map", "map[string]Named", False), ("map-inst", "map[string]Pair[int, int]", False), ("chan", "chan Named", False),
+    ("func", "func(Named) Named", False), ("func-inst", "func(Box[int]) Pair[string, int]", False),
+    ("struct", "struct{ a int }", False), ("defined-str", "Str", True), ("undefined", "NoSuch[int, string]", True),
+    ("wrong-arity", "Pair[int]", True), ("non-generic-inst", "Named[int]", True),
+]
+
+
+def typeexpr_family():
+    """mixed packages (g.go declares generic types, a.xgo uses them): one package per (position, shape).
+    Whatever cl answers (package or errors), it must answer: no crash, no hang."""
+    out = []
+    imports = 'import (\n\t"fmt"\n\t"strings"\n)\n\nvar _ = fmt.Sprint\nvar _ strings.Builder\n\n'
+    for name, t, emb in TYPE_SHAPES_C07:
+        pos = {
+            "field": "type S struct {\n\tf %s\n\tn int\n}\n\nvar s S\nprintln s.n\n" % t,
+            "field-group": "type S struct {\n\ta, b %s\n}\n\nvar s S\n_ = s\n" % t,
+            "param": "func f(x %s) int {\n\treturn 1\n}\n\nprintln 1\n" % t,
+            "result": "func f() (r %s) {\n\treturn\n}\n\n_ = f()\n" % t,
+            "var": "var v %s\n_ = v\n" % t,
+            "local-var": "func f() {\n\tvar v %s\n\t_ = v\n}\n\nf()\n" % t,
+            "conversion": "var x any\ny := (%s)(x)\n_ = y\n" % t,
+            "composite": "v := %s{}\n_ = v\n" % t,
+            "new-make": "p := new(%s)\n_ = p\n" % t,
+            "assertion": "var x any\nv, ok := x.(%s)\n_, _ = v, ok\n" % t,
+            "typeswitch": "var x any\nswitch x.(type) {\ncase %s:\n\tprintln 1\n}\n" % t,
+            "alias": "type A = %s\n\nvar a A\n_ = a\n" % t,
+            "defined": "type D %s\n\nvar d D\n_ = d\n" % t,
+            "slice-elem": "var v []%s\n_ = v\n" % t,
+            "map-value": "var v map[string]%s\n_ = v\n" % t,
+            "func-lit": "f := func(x %s) {}\n_ = f\n" % t,
+            "method-recv-arg": "type R int\n\nfunc (r R) m(x %s) {}\n\nprintln 1\n" % t,
+        }
+        if emb:
+            pos["embedded"] = "type S struct {\n\t%s\n\tn int\n}\n\nvar s S\nprintln s.n\n" % t
+            pos["embedded-ptr"] = "type S struct {\n\t*%s\n\tn int\n}\n\nvar s S\nprintln s.n\n" % t.lstrip("*")
+            pos["embedded-only"] = "type S struct {\n\t%s\n}\n\nvar s S\n_ = s\n" % t
+            pos["embedded-in-anon"] = "var s struct {\n\t%s\n\tn int\n}\n_ = s\n" % t
+            pos["embedded-iface"] = "type I interface {\n\t%s\n}\n\nvar i I\n_ = i\n" % t
+        for pname, body in pos.items():
+            out.append(("typeexpr:%s:%s" % (pname, name), [{"name": "g.go", "src": GENERIC_GO}, {"name": "a.xgo", "src": imports + body}]))
+        if emb:
+            # class-file field block (normal .gox class): embedded field of the shape
+            out.append(("typeexpr:gox-embedded:%s" % name,
+                        [{"name": "g.go", "src": GENERIC_GO},
+                         {"name": "Rect.gox", "src": "var (\n\t%s\n\tw int\n)\n\nfunc Area() int {\n\treturn w\n}\n" % t},
+                         {"name": "main.xgo", "src": "r := &Rect{}\nprintln r.area\n"}]))
+            out.append(("typeexpr:gox-field:%s" % name,
+                        [{"name": "g.go", "src": GENERIC_GO},
+                         {"name": "Rect.gox", "src": "var (\n\tf %s\n\tw int\n)\n\nfunc Area() int {\n\treturn w\n}\n" % t},
+                         {"name": "main.xgo", "src": "r := &Rect{}\nprintln r.area\n"}]))
+    return out
